@@ -41,7 +41,7 @@ AMEND_HEAVY = {
 WORKLOADS = {
     # property: (quick sizes, thorough sizes) as dicts
     "C09": {"quick": {"gen": 70, "conflict": 60, "shapes": True}, "thorough": {"gen": 900, "conflict": 900, "shapes": True}},
-    "C08": {"quick": {"gen": 30, "conflict": 120, "shapes": False}, "thorough": {"gen": 300, "conflict": 2000, "shapes": True}},
+    "C08": {"quick": {"gen": 30, "conflict": 120, "shapes": True}, "thorough": {"gen": 300, "conflict": 2000, "shapes": True}},
     "C10": {"quick": {"gen": 110, "conflict": 0, "shapes": True, "features": HOLD_HEAVY}, "thorough": {"gen": 1500, "conflict": 200, "shapes": True, "features": HOLD_HEAVY}},
     "C12": {"quick": {"gen": 110, "conflict": 0, "shapes": True, "features": HOLD_HEAVY}, "thorough": {"gen": 1500, "conflict": 0, "shapes": True, "features": HOLD_HEAVY}},
     "C15": {"quick": {"gen": 20, "conflict": 160, "shapes": False}, "thorough": {"gen": 200, "conflict": 3000, "shapes": True}},
